@@ -167,6 +167,9 @@ pub fn judge(c: &PoolCase, o: &PoolOutcome) -> Result<bool, (String, String)> {
 pub fn check_case(c: &PoolCase) -> Verdict {
     // A payload destructor that panics on a worker aborts the process by
     // design; only index 0 may carry it.
+    if pool::exceeds_thread_capacity(c) {
+        return Verdict::Inconclusive("more threads than the scheduler has slots".into());
+    }
     let o = run_pool(c);
     match judge(c, &o) {
         Ok(nontrivial) => {
@@ -204,7 +207,7 @@ pub fn enumerated(tier: Tier) -> Vec<PoolCase> {
 
 fn groups(g: &mut Groups) {
     g.enumerate("bounded_schedules", enumerated, true, check_case);
-    g.prop("random", 24_000, 600_000, || pool::pool_case(4, 4), check_case);
+    g.prop("random", 24_000, 3_000_000, || pool::pool_case(4, 4), check_case);
     let _ = vensure_unused;
 }
 
